@@ -142,7 +142,12 @@ for _pid, _spec in PROPS.items():
         _spec['scenarios'].append(('bulk', 300, 3000, ''))
 
 
+PROPS['C15']['scenarios'].append(('genesis', 1200, 8000, ''))
+PROPS['C19']['scenarios'].append(('genesis', 600, 6000, ''))
+PROPS['C20']['scenarios'].append(('genesis', 600, 6000, ''))
 PROPS['C18'].setdefault('thorough_reps', 8)
+for _scn, _arg in [('recvmatrix', ''), ('depmatrix', ''), ('replace', ''), ('roles', 'lifecycle'), ('nonces', ''), ('faults', '')]:
+    PROPS['C18']['scenarios'].append((_scn, 500, 4000, _arg))
 PROPS['C20'].setdefault('thorough_reps', 8)
 for _scn in ['recvmatrix', 'depmatrix', 'replace', 'registry', 'attesters', 'bulk']:
     if _scn not in set(sc[0] for sc in PROPS['C20']['scenarios']):
@@ -150,6 +155,8 @@ for _scn in ['recvmatrix', 'depmatrix', 'replace', 'registry', 'attesters', 'bul
 
 
 def relevant_op(pid, kind, sub):
+    if kind == 'sim':
+        kind = 'tx'
     for (k, s) in PROPS[pid].get('ops', []):
         if k == kind and (s is None or s == sub or s == ''):
             if s == '' and kind in ('tx', 'query') and sub != '':
